@@ -60,7 +60,7 @@ VALUES = {
     "use_zopflipng": [False, True],
     "output_file": ["Out.ttf", "Other Name.ttf"],
     "glyphmap_generator": ["my_glyphmap"],
-    "color_format": ["glyf_colr_0", "picosvg", "picosvgz", "cff_colr_1", "glyf"],
+    "color_format": ["glyf_colr_0", "picosvg", "picosvgz", "cff_colr_1", "glyf", "cff2_colr_0", "cff_colr_0", "cff2_colr_1"],
 }
 FAMILY_OF = {"vector": "glyf_colr_1", "otsvg": "picosvg", "bitmap": "cbdt"}
 APPLIES = {
@@ -132,6 +132,10 @@ def enumerate_cases(tier):
             v1 = vals[(seed + k) % len(vals)]
             v2 = vals[(seed + k + 1) % len(vals)]
             yield {"t": "single", "field": field, "family": fam, "channel": ch, "value": v1, "other": v2}
+        if field == "color_format" and tier == "quick":
+            # every colour format once on every run (alternating flag / file): each is one table entry in the tool
+            for k, v1 in enumerate(vals):
+                yield {"t": "single", "field": field, "family": fams[0], "channel": ("flag", "file")[k % 2], "value": v1, "other": vals[(k + 1) % len(vals)]}
     for opt in sorted(PAIR_OPTIONS):
         fam, vals = PAIR_OPTIONS[opt]
         for share in (("all",) if tier == "quick" else ("all", "partial")):
@@ -331,7 +335,8 @@ def judge_single(case, v):
         # the colour format decides the colour tables; the output file's extension decides the outline flavour
         outline = "glyf" if out_name.endswith(".ttf") else ("CFF2" if fmt.startswith("cff2") else "CFF ")
         exp_tables = {"glyf_colr_1": ["COLR", "CPAL"], "glyf_colr_0": ["COLR", "CPAL"], "picosvg": ["SVG "], "picosvgz": ["SVG "],
-                      "cff_colr_1": ["COLR", "CPAL"], "glyf": [], "cbdt": ["CBDT", "CBLC"]}[fmt] + [outline]
+                      "cff_colr_1": ["COLR", "CPAL"], "cff_colr_0": ["COLR", "CPAL"], "cff2_colr_0": ["COLR", "CPAL"], "cff2_colr_1": ["COLR", "CPAL"],
+                      "glyf": [], "cbdt": ["CBDT", "CBLC"]}[fmt] + [outline]
         if o["tables"] != sorted(exp_tables):
             bad("tables present", o["tables"], sorted(exp_tables))
         if "COLR" in font and o.get("colr_version") != (0 if fmt.endswith("_0") else 1):
